@@ -21,6 +21,23 @@ def gen_case(seed, i, engine, n_ops):
     return core.Case("backend", lines, {"engine": engine})
 
 
+def iterfault_case(seed, i, engine):
+    """a transient iterator error in the middle of a scan (the worker retries its partition after a backoff):
+    the answer must be exactly the fault-free one — no duplicates, nothing missing, same order"""
+    from ..gen import PREFIX, hx
+    r = rng_for(seed, "c03it/%d" % i)
+    keys = r.sample([k for k in KEY_POOL if b"events" not in k][:8], r.randint(3, 5))
+    sh = hist.Shadow()
+    lines = [hist.cfg_line(engine)]
+    lines += hist.gen_writes(r, sh, r.randint(8, 16), keys, p_ok=0.9)
+    lines.append("rev")
+    lo, hi = hx(PREFIX + b"/"), hx(PREFIX + b"0")
+    for _ in range(2):
+        rev = r.choice([0, 0, r.randint(hist.INIT + 1, max(hist.INIT + 1, sh.dealt))])
+        lines += ["iterfault %d" % r.randint(2, 9), r.choice(["list %s %s %d 0" % (lo, hi, rev), "count %s %s" % (lo, hi)])]
+    return core.Case("backend", lines, {"engine": engine})
+
+
 def tombstone_witness(engine):
     k = hx(b"/r/a")
     lines = [hist.cfg_line(engine), "create %s %s" % (k, hx(hist.TOMB)), "rev", "get %s 0" % k,
@@ -37,6 +54,7 @@ def check(rep, tier, seed):
     for i in range(16 if tier == "quick" else 400):
         r = rng_for(seed, "c03s/%d" % i)
         cases.append(sched.gen_schedule(r, 4, r.sample(KEY_POOL[:8], 2), ENGINES[i % 3]))
+    cases += [iterfault_case(seed, i, ENGINES[i % 3]) for i in range(9 if tier == "quick" else 90)]
     core.run_cases(cases)
     for c in cases:
         rep.count_case(c)
